@@ -1,0 +1,28 @@
+//go:build verif
+
+package blockstore
+
+import (
+	"io"
+
+	internalio "github.com/ipld/go-car/v2/internal/io"
+)
+
+// VerifInterposeDataWriter lets a verification harness put a wrapper (e.g. one that injects
+// write errors and short writes) between the blockstore's data writer and its backing file.
+// The data writer is rebuilt over wrap(file) at the same base offset and moved to the
+// current position, so sections written from now on go through the wrapper.
+// The CARv2 pragma, header and index writes of Finalize use the file directly and are not
+// affected. Only compiled with the "verif" build tag.
+func (b *ReadWrite) VerifInterposeDataWriter(wrap func(io.WriterAt) io.WriterAt) {
+	b.ronly.mu.Lock()
+	defer b.ronly.mu.Unlock()
+
+	offset := int64(b.header.DataOffset)
+	if b.opts.WriteAsCarV1 {
+		offset = 0
+	}
+	pos := b.dataWriter.Position()
+	b.dataWriter = internalio.NewOffsetWriter(wrap(b.f), offset)
+	b.dataWriter.Seek(pos, io.SeekStart)
+}
